@@ -164,7 +164,7 @@ def lay_id(lay):
 
 def _plan(tier):
     T = tier == "thorough"
-    mx = 5
+    mx = 5 if T else 4
     P = [(L,) for L in range(1, 6 + 1)] + [(a, b) for a in range(1, mx + 1) for b in range(1, mx + 1)]
     H = [(L,) for L in range(1, 6 + 1)] + [(a, b) for a in range(1, (5 if T else 4) + 1) for b in range(1, (5 if T else 4) + 1)]
     if T:
@@ -203,7 +203,7 @@ def shards(tier, seed):
     for lens in Lp:
         n = len(layouts(lens))
         p = sum(lens)
-        step = {1: 50, 2: 8, 3: 4, 4: 2}[p]
+        step = {1: 50, 2: 8, 3: (12 if tier == "quick" else 4), 4: 2}[p]
         for i in range(0, n, step):
             out.append(("L", lens, i, min(i + step, n)))
     return out
@@ -596,13 +596,13 @@ def run_V(spec, ctx):
 
 
 # ---------------------------------------------------------------------------- layer L
-def l_effects(p, seed):
+def l_effects(p, seed, tier="thorough"):
     eff = EFF[seed % 3]
     if p <= 2:
         vecs = list(itertools.product(eff, repeat=p))
     else:
         vecs = [tuple(eff[(j + s) % 4] for j in range(p)) for s in range(4)]
-        if p == 4:
+        if p == 4 or tier == "quick":
             vecs = vecs[:3]
     out = []
     for i, v in enumerate(vecs):
@@ -611,12 +611,12 @@ def l_effects(p, seed):
     return out
 
 
-def l_genotypes(p, seed):
+def l_genotypes(p, seed, tier="thorough"):
     """Genotype family (2 phases x 3 taxa x p markers, 0/1): haplotype (0,0)=a and (1,1)=b range over patterns,
     the other four copies are fixed functions of them (complement, rotation, zero, alternating)."""
     pats = list(itertools.product((0, 1), repeat=p))
     A = pats
-    B = pats if p <= 3 else [pats[i] for i in (0, 5, 10, 15)]
+    B = pats if p <= 2 or (p == 3 and tier == "thorough") else [pats[i] for i in ((1, 6) if p == 3 else (0, 5, 10, 15))]
     out = []
     for a in A:
         for b in B:
@@ -742,8 +742,8 @@ def run_L(spec, ctx):
     _, lens, a, b = spec
     seed = ctx.seed
     p = sum(lens)
-    effs = l_effects(p, seed)
-    genos = l_genotypes(p, seed)
+    effs = l_effects(p, seed, ctx.tier)
+    genos = l_genotypes(p, seed, ctx.tier)
     ctx.flag(f"L:{lens}")
     gps = []
     for u in effs:
@@ -762,7 +762,7 @@ def run_L(spec, ctx):
             for gi, G in enumerate(genos):
                 pg.mat = numpy.array(G, dtype="int8")
                 for ei, u in enumerate(effs):
-                    case = dict(layer="L", lay=[list(ch) for ch in lay], total=total, gi=gi, ei=ei, seed=seed)
+                    case = dict(layer="L", lay=[list(ch) for ch in lay], total=total, gi=gi, ei=ei, seed=seed, tier=ctx.tier)
                     ctx.evaluations += 1
                     sid = b"L" + lid + bytes([total, gi, ei])
                     ctx.states.add(sid)
@@ -851,8 +851,8 @@ def replay(case, ctx):
     elif lay == "L":
         lt = tuple(tuple(ch) for ch in case["lay"])
         lo = Layout(lt, seed)
-        effs = l_effects(lo.p, seed)
-        genos = l_genotypes(lo.p, seed)
+        effs = l_effects(lo.p, seed, case.get("tier", ctx.tier))
+        genos = l_genotypes(lo.p, seed, case.get("tier", ctx.tier))
         G, u = genos[case["gi"]], effs[case["ei"]]
         pg = make_pgmat(lo, numpy.array(G, dtype="int8"))
         gp = make_gpmod(numpy.array([[float(x) for x in r] for r in u], dtype="float64"))
